@@ -230,3 +230,51 @@ def check_fbd(run, info, n_valid, n_mutants, tag):
             run.violation("correspondence", "declaration parser model and parse_program disagree on %r: model %s, parser %s" % (
                 t[:140], str(mm)[:200], str(got)[:200]), {"input": {"text": t}, "model": mm, "parser": got}, no_input=True)
     return stats
+
+
+def check_render_fbd(run, info, n, tag):
+    """renderer model for function blocks with declarations (Model/StRender.v render_decls + render_list, the subject of
+    C10_declarations_parse_render) vs write_to_string: the significant tokens between FUNCTION_BLOCK name and END_FUNCTION_BLOCK"""
+    rng = run.rng
+    texts = []
+    nostmt = []
+    for k in range(n):
+        vs, es, ss, lx = gen_st.fbd_body(rng, depth=rng.choice([1, 1, 2]))
+        texts.append(gen_prog.render(lx, None))
+        nostmt.append(ss == "()")
+    res = vlib.run_impl([{"id": i, "op": "roundtrip", "text": hexs(t)} for i, t in enumerate(texts)], run.workdir, per_case_timeout=30)
+    rendered = []
+    for r in res:
+        rendered.append(bytes.fromhex(r["render1"]).decode("utf-8", "replace") if isinstance(r.get("render1"), str) and r.get("render1") != "err" else None)
+    tok = vlib.run_impl([{"id": i, "op": "tok", "text": hexs(t or "")} for i, t in enumerate(rendered)], run.workdir, per_case_timeout=30)
+    model = vlib.run_model([("fbdrender", i, [hexs(t)]) for i, t in enumerate(texts)], run.workdir) if info.get("extract_ok") else {}
+    compared = 0
+    for i, t in enumerate(texts):
+        run.count(("fbdrender", t), True, "declaration-renderer-model:" + tag)
+        m = model.get(str(i))
+        if rendered[i] is None or not m or m[0] != "rendered":
+            continue
+        toks = [(x[0], bytes.fromhex(x[5]).decode("utf-8", "replace")) for x in tok[i].get("tokens", [])
+                if x[0] not in ("Whitespace", "Newline", "Comment") and not (x[0] == "Semicolon" and x[5] == "")]
+        if len(toks) < 3 or toks[0][0] != "FunctionBlock" or toks[-1][0] != "EndFunctionBlock":
+            continue
+        impl = toks[2:-1]
+        mod = []
+        for w in (m[1].split(" ") if len(m) > 1 and m[1] else []):
+            k, h = w.split(":", 1)
+            mod.append((k, "".join(chr(int(c, 16)) for c in h.split(".") if c)))
+        keep = ("Identifier", "Digits", "SingleByteString", "DoubleByteString")
+        a = [(k, x if k in keep else "") for k, x in impl]
+        b = [(k, x if k in keep else "") for k, x in mod]
+        # a body of empty statements only is Statements([]) in the tree and is written ';'; the model's list of statements
+        # is empty both for it and for no body at all
+        if nostmt[i] and a and a[-1] == ("Semicolon", "") and len(a) == len(b) + 1:
+            a = a[:-1]
+        compared += 1
+        run.cov["traces_validated_against_impl"] += 1
+        if a != b:
+            run.cov["disagreements_checked"] += 1
+            j = next((j for j in range(min(len(a), len(b))) if a[j] != b[j]), min(len(a), len(b)))
+            run.violation("correspondence", "renderer model and write_to_string write different tokens for %r: at token %d the model has %r, the renderer %r" % (
+                t[:100], j, b[j:j + 3], a[j:j + 3]), {"input": {"text": t}, "rendered": rendered[i]}, no_input=True)
+    return compared
